@@ -162,7 +162,10 @@ def corpus():
     """every operation on every kind of target, on both worlds"""
     stale = [c for c in hist.stale_handle_cases("c15", ["mem", "alt_mem", "ovl_mm"]) if not c.name.endswith("flush_drop")]
     return hist.matrix_cases("c15", ["mem", "phys", "alt_mem", "ovl_mm", "ovl_pp"]) + stale + \
-        hist.open_handle_cases("c15", ["mem", "alt_mem", "ovl_mm", "ovl_m"]) + c04_sessions()
+        hist.open_handle_cases("c15", ["mem", "alt_mem", "ovl_mm", "ovl_m"]) + c04_sessions() + \
+        hist.wo_names_cases("c15", ("ovl_mm", "ovl_sub", "ovl_mmm", "alt_ovl")) + \
+        hist.reader_seek_cases("c15", ["mem", "alt_mem", "ovl_mm", "phys"]) + \
+        hist.neighbour_name_cases("c15", ["mem", "ovl_mm"])
 
 
 def generate(rng, tier):
